@@ -307,7 +307,7 @@ pub fn parse_proj(definition: &str) -> Result<String, Error> {
                     }
 
                     // Remove all cases of 'inv' from the global arguments
-                    let pipeline_globals_elements: Vec<String> = elements
+                    let mut pipeline_globals_elements: Vec<String> = elements
                         .join(" ")
                         .trim()
                         .to_string()
@@ -315,6 +315,7 @@ pub fn parse_proj(definition: &str) -> Result<String, Error> {
                         .filter(|x| x.trim() != "inv")
                         .map(|x| x.trim().to_string())
                         .collect();
+                    tidy_proj(&mut pipeline_globals_elements)?;
                     pipeline_globals = pipeline_globals_elements.join(" ").trim().to_string();
                     elements.clear();
                 }
